@@ -182,3 +182,106 @@ Example C02_ex_purged_no_send :
                               (OConnect 2002 [500], [])]) in (db_users t, db_apps t, C02_ex_rpcs t))
   = ([], [], []).
 Proof. vm_compute. reflexivity. Qed.
+
+(* ================================================================================================ *)
+(* RUN LEVEL (TowerRuns2.v; a moment of a run is a cut  h = pre ++ (o, sc) :: post, see TowerRuns.v).
+   Hypotheses: a bootstrapped tower and a history inside the envelope / chain discipline of TowerLive.v. *)
+From TeosModel Require Import TowerLive TowerRuns TowerRuns2.
+
+(* "Every transaction the tower submits to the Bitcoin node is ...": EVERY K_send in the RPC log of EVERY step of
+   EVERY run is justified as in C02_every_send_justified (whose hypotheses Inv and reorged_tracked hold in every
+   state a run reaches) *)
+Theorem C02_every_send_justified_run le c h0 blocks t0 h pre o sc post :
+  init c h0 blocks = Some t0 -> NoDup (map fst blocks) -> N.of_nat (length blocks) <= h0 ->
+  in_envelope le t0 h = true -> chain_disciplined le t0 h = true ->
+  h = pre ++ (o, sc) :: post ->
+  let t := fst (run le t0 pre) in
+  forall e, In e (rpc_log (fst (run le t0 (pre ++ [(o, sc)])))) -> r_kind e = K_send ->
+    (exists hash txs a, o = OConnect hash txs /\ In a (db_apps t) /\ In (a_loc a) txs /\
+                        decrypt (a_blob a) (a_loc a) = Some (r_tx e)) \/
+    (exists k, In k (db_trks t) /\ t_penalty k = r_tx e) \/
+    (exists k, In k (db_trks t) /\ mem_uuid (trk_uuid k) (reorged t) = true /\ t_dispute k = r_tx e) \/
+    (exists u loc b delay sig d, o = OAdd (Some u) loc b delay sig /\ ti_get (w_cache t) loc = Some d /\
+                                 decrypt b d = Some (r_tx e)).
+Proof. exact (every_send_justified_run le c h0 blocks t0 h pre o sc post). Qed.
+
+(* "It never submits anything on behalf of appointments that were not triggered": in a run that contains no block
+   carrying the locator of a row stored at that moment and no add_appointment for a locator the watcher's cache holds
+   (no_trigger_run, computable), at every moment: there is no tracker before or after the step, the step issues no
+   sendrawtransaction at all - in particular none for the penalty of any stored appointment *)
+Theorem C02_no_send_without_breach_run le c h0 blocks t0 h pre o sc post :
+  init c h0 blocks = Some t0 -> NoDup (map fst blocks) -> N.of_nat (length blocks) <= h0 ->
+  in_envelope le t0 h = true -> chain_disciplined le t0 h = true -> no_trigger_run le t0 h = true ->
+  h = pre ++ (o, sc) :: post ->
+  let t := fst (run le t0 pre) in
+  let t' := fst (run le t0 (pre ++ [(o, sc)])) in
+  db_trks t = [] /\ db_trks t' = [] /\
+  (forall e, In e (rpc_log t') -> r_kind e <> K_send) /\
+  (forall a p, In a (db_apps t) -> decrypt (a_blob a) (a_loc a) = Some p -> forall r, ~ In (mk_rpc K_send p r) (rpc_log t')).
+Proof. exact (no_send_without_breach_run le c h0 blocks t0 h pre o sc post). Qed.
+
+Theorem C02_no_trigger_defs le t o sc r :
+  no_trigger_at t o =
+  match o with
+  | OConnect _ txs => forallb (fun a => negb (memN (a_loc a) txs)) (db_apps t)
+  | OAdd _ loc _ _ _ => match ti_get (w_cache t) loc with None => true | Some _ => false end
+  | _ => true
+  end /\
+  no_trigger_run le t [] = true /\
+  no_trigger_run le t ((o, sc) :: r) = (no_trigger_at t o && no_trigger_run le (fst (step le t o sc)) r).
+Proof. repeat split; reflexivity. Qed.
+
+(* ONE STEP without trigger, from any state without trackers *)
+Theorem C02_quiet_without_trigger le t o sc t' x :
+  Inv t -> reorged_tracked t -> db_trks t = [] -> no_trigger_at t o = true ->
+  step le t o sc = (t', x) -> not_abort x ->
+  db_trks t' = [] /\ forall e, In e (rpc_log t') -> r_kind e <> K_send.
+Proof. exact (quiet_without_trigger le t o sc t' x). Qed.
+
+Print Assumptions C02_every_send_justified_run.
+Print Assumptions C02_no_send_without_breach_run.
+Print Assumptions C02_no_trigger_defs.
+Print Assumptions C02_quiet_without_trigger.
+
+(* ---------- non-vacuity ---------- *)
+Lemma C02_ex_blocks0_nodup : NoDup (map fst C02_ex_blocks0).
+Proof. repeat (constructor; [cbn; intuition discriminate|]). constructor. Qed.
+
+(* a history with appointments, blocks, a reorg and reads, but no trigger: nothing is ever sent *)
+Definition C02_ex_quiet_hist : list (op * script) :=
+  [(ORegister 1, []); (ORegister 2, []); (OAdd (Some 1) 500 C02_ex_good 20 77, []); (OConnect 2001 [501; 7], []);
+   (OAdd (Some 2) 502 (mk_blob 502 (Some 900) 100) 20 78, []); (OConnect 2002 [900], []); (ODisconnect, []);
+   (OGet (Some 1) 500, []); (OConnect 2003 [], []); (OAdd (Some 1) 500 (mk_blob 500 (Some 901) 100) 20 79, [])].
+
+Example C02_ex_quiet_hyps :
+  init C02_ex_c0 200 C02_ex_blocks0 = Some C02_ex_t0 /\ N.of_nat (length C02_ex_blocks0) <= 200 /\
+  in_envelope true C02_ex_t0 C02_ex_quiet_hist = true /\ chain_disciplined true C02_ex_t0 C02_ex_quiet_hist = true /\
+  no_trigger_run true C02_ex_t0 C02_ex_quiet_hist = true /\
+  length (db_apps (fst (run true C02_ex_t0 C02_ex_quiet_hist))) = 2%nat.
+Proof. repeat split; vm_compute; try reflexivity. discriminate. Qed.
+
+Example C02_ex_quiet_applied :
+  forall pre o sc post, C02_ex_quiet_hist = pre ++ (o, sc) :: post ->
+    forall e, In e (rpc_log (fst (run true C02_ex_t0 (pre ++ [(o, sc)])))) -> r_kind e <> K_send.
+Proof.
+  intros pre o sc post E. destruct C02_ex_quiet_hyps as [Hi [Hlen [He [Hc [Hn _]]]]].
+  exact (proj1 (proj2 (proj2 (C02_no_send_without_breach_run true C02_ex_c0 200 C02_ex_blocks0 C02_ex_t0 C02_ex_quiet_hist
+                                pre o sc post Hi C02_ex_blocks0_nodup Hlen He Hc Hn E)))).
+Qed.
+
+(* ... whereas the same history with the locator 500 mined is not trigger-free, and the penalty is sent (justified) *)
+Example C02_ex_trigger_detected :
+  no_trigger_run true C02_ex_t0 (C02_ex_quiet_hist ++ [(OConnect 2004 [500], [])]) = false /\
+  C02_ex_log_after (C02_ex_quiet_hist ++ [(OConnect 2004 [500], [])]) = [(K_send, 901); (K_getraw, 901)].
+Proof. vm_compute. split; reflexivity. Qed.
+
+(* every_send_justified_run applied to the reorg re-announcement of C02_ex_reorg_reannounce: the two sends of the last
+   step are justified by the tracker in `reorged` *)
+Example C02_ex_run_justified :
+  let h := [(ORegister 1, []); (OAdd (Some 1) 500 C02_ex_good 20 77, []); (OConnect 2001 [500], []);
+            (OConnect 2002 [900], []); (ODisconnect, []); (OConnect 2003 [], [])] in
+  in_envelope true C02_ex_t0 h = true /\ chain_disciplined true C02_ex_t0 h = true /\
+  (let t := fst (run true C02_ex_t0 (firstn 5 h)) in
+   map (fun k => (trk_uuid k, t_dispute k, t_penalty k, mem_uuid (trk_uuid k) (reorged t))) (db_trks t))
+  = [((500, 1), 500, 900, true)].
+Proof. vm_compute. repeat split; reflexivity. Qed.
